@@ -52,6 +52,9 @@ Partial == {Include(S("p"), "none", NilE, "", <<>>),
             Include(S("q"), "for", V("arr"), "x", <<WArg("y", I(9))>>),
             Include(S("p"), "none", NilE, "", <<WArg("x", I(8)), WArg("z", Y)>>),
             Include(V("n"), "none", NilE, "", <<>>),
+            \* a keyword argument named like the variable the tag iterates / binds
+            Include(S("q"), "for", V("arr"), "x", <<WArg("arr", RangeE(I(5), I(6)))>>), Include(S("q"), "with", V("arr"), "x", <<WArg("arr", I(7))>>),
+            RenderT(S("q"), "for", V("arr"), "x", <<WArg("arr", RangeE(I(5), I(6)))>>),
             Quoted(Include(S("p"), "with", I(5), "q", <<>>)), Quoted(RenderT(S("s"), "for", V("arr"), "x", <<>>)),
             Include(S("dir/q.html"), "with", I(5), "", <<>>), Include(S("dir/q.html"), "for", V("arr"), "", <<>>),
             RenderT(S("dir/q.html"), "with", I(6), "", <<>>), RenderT(S("dir/q.html"), "for", V("arr"), "", <<>>),
